@@ -234,3 +234,14 @@ func (b *barrierSync) Synchronize(ctx context.Context, f func([]uint16), topic [
 		return ctx.Err()
 	}
 }
+
+// AllBackends returns the backends created so far (a copy, taken under the lock).
+func (c *Cluster) AllBackends() []*backend.Backend {
+	c.mu.Lock()
+	defer c.mu.Unlock()
+	var out []*backend.Backend
+	for _, l := range c.Backends {
+		out = append(out, l...)
+	}
+	return out
+}
